@@ -132,10 +132,12 @@ where
 
     /// Refreshes the session with the given token.
     /// If successful, the token will be set to expire after the configured duration.
+    /// An expired token cannot be refreshed.
     pub fn refresh_session(&mut self, token: impl AsRef<str>) -> Result<(), AuthError> {
         let mut user = self
             .users
             .get_user_by_token(token)
+            .filter(|u| u.session.as_ref().unwrap().valid())
             .ok_or(AuthError::InvalidToken)?;
 
         let mut session = user.session.unwrap();
